@@ -274,7 +274,11 @@ func runCrash(seed int64, nops int, size uint64, prof string, unstable bool, out
 					fmt.Fprintf(w, "X panic\n")
 				}
 			}()
-			if script != nil {
+			if script != nil && ci%3 == 1 {
+				// the first call that touches the object whose freeing the cut interrupted removes it: every block it
+				// still holds must be released all the same
+				sr.Step(Op{Id: 900012, Proc: "remove", H: "root", Name: "a"})
+			} else if script != nil {
 				// touch the object whose freeing the cut interrupted: the rest of its blocks must then be released
 				sr.Step(Op{Id: 900010, Proc: "lookup", H: "root", Name: "a"})
 				sr.Step(Op{Id: 900011, Proc: "write", H: "@900010", Off: 1, Cnt: 3, Stable: 2, Data: DataSpec{Pat: true, Len: 3, Seed: 5}})
